@@ -175,7 +175,8 @@ CLAIMS["C36"] = {
             "exceeded 1500 s); the scheduler loop around run_hooks and SimBuilder wiring; the "
             "log-formatting branches (log_writer is None). The output channel is a CONTRACT DOUBLE of dfir_rs::util::unsync::mpsc (try_send appends and "
             "returns Ok) because the real channel is outside CBMC's reach (C16). Bounds: queue length <= 3 (<= 2 per input for merges), <= 3 hooks; "
-            "quick leaves out the three MergeOrderedHook harnesses with two non-empty inputs (3-4 min each), which are in thorough; TopLevelFoldHook with 2 queued items "
+            "quick covers MergeOrderedHook with two non-empty inputs by 8 scripted-driver harnesses enumerating every interleaving decision for 2 + 2 items; the "
+            "havoc-driver versions (3-4 min each) and the scripts for the smaller inputs are in thorough; TopLevelFoldHook with 2 queued items "
             "exceeds 20 min of CBMC under the havoc driver; it is covered instead by 8 harnesses with a SCRIPTED driver that enumerate every decision "
             "sequence the hook can consume for two items (two include/exclude answers, one Fisher-Yates index), items symbolic.",
     "technique": "contract-based verification: Kani bounded harness contracts on the real hook code (whole file extracted mechanically), havoc driver and havoc hooks as callee contracts",
